@@ -1,7 +1,8 @@
 #!/bin/sh
-# usage: dbg_seed.sh <seed-id> <PROP>...
+# usage: dbg_seed.sh <seed-id> <PROP>...   (works on a scratch copy of /repo/src; /repo is not touched)
 id=$1; shift
-cd /repo && git apply /verif/seeded/$id/patch.diff || exit 1
+d=$(mktemp -d /tmp/sa_dbg_XXXXXX); cp -r /repo/src $d/src
+(cd $d && git apply --include='src/*' /verif/seeded/$id/patch.diff) || { rm -rf $d; exit 1; }
 cd /verif
-for p in "$@"; do OPTYX_SHOW_VIEWS=1 OPTYX_NO_EVIDENCE=1 ./check $p | grep "^--\|^   " | cut -c1-400; done
-git -C /repo checkout -- .
+for p in "$@"; do echo "## $p"; OPTYX_REPO=$d OPTYX_SHOW_VIEWS=1 OPTYX_NO_EVIDENCE=1 ./check $p | grep "^--\|^   " | cut -c1-${W:-400}; done
+rm -rf $d
